@@ -127,7 +127,7 @@ struct Runner
     static std::ostringstream*& shared_stream() { static thread_local std::ostringstream* s = nullptr; return s; }
     static Obs observe(const gg::Input& in, bool verbose, int stream, int buffer)
     {
-        Obs o; tpl::g_log = &o.log;
+        Obs o; tpl::CallLog* outer_log = tpl::g_log; tpl::g_log = &o.log;      // (an operation started from inside a functor restores the outer log)
         PS& p = parser();
         auto opts = ctpg::parse_options{}.set_skip_whitespace(in.skip_ws).set_skip_newline(in.skip_nl).set_verbose(verbose);
         std::unique_ptr<char[]> exact(new char[in.text.size() ? in.text.size() : 1]);
@@ -169,7 +169,7 @@ struct Runner
             else { UserStream us; with_buffer(us); o.err = us.os.str(); }
         }
         catch (const std::exception& e) { o.threw = true; o.exc = e.what(); }
-        tpl::g_log = nullptr;
+        tpl::g_log = outer_log;
         // term functor pointers are only comparable while the buffer lives: they were converted to offsets by the log hook below
         for (auto& t : o.log.terms) t.data = reinterpret_cast<const char*>(t.data - base);
         return o;
